@@ -29,11 +29,70 @@ def _field(e):
     return None, None
 
 
+def _link_addr_helpers(prog, unit):
+    """static helpers that return the address of the slot pointing at a node's neighbour position:
+        T **h(C *c, T *p) { return (p == NULL) ? &c->E : &p->K; }
+    name -> (index of p, K (field of the non-NULL arm), E (end field of the NULL arm)).  `*h(c, node->prev) = v` then handles
+    both the at-the-end and the inner case of one side, like a pointer-to-pointer slot variable."""
+    out = {}
+    for f in prog.funcs_in(unit):
+        if f.body is None or not (f.rettype or '').replace(' ', '').endswith('**'):
+            continue
+        rets = [r for r in f.cfg.returns() if children(r.ast)]
+        if len(rets) != 1:
+            continue
+        r = strip(children(rets[0].ast)[0])
+        if r.get('kind') != 'ConditionalOperator':
+            continue
+        c, a, b = children(r)
+        t = cond_null_test(c)
+        if not t:
+            continue
+        pidx = next((i for i, p_ in enumerate(f.params) if p_.get('name') == t[0]), None)
+        if pidx is None:
+            continue
+        arm_nn, arm_null = (b, a) if t[1] else (a, b)
+
+        def addr_field(e):
+            e = strip(e)
+            if e.get('kind') == 'UnaryOperator' and e.get('opcode') == '&':
+                return _field(children(e)[0])
+            return (None, None)
+        f1, b1 = addr_field(arm_nn)
+        f2, b2 = addr_field(arm_null)
+        cidx = next((i for i, p_ in enumerate(f.params) if b2 is not None and p_.get('name') == access_path(b2)), None)
+        if f1 in OPP and access_path(b1) == t[0] and f2 in ('first', 'last') and cidx is not None:
+            out[f.name] = (pidx, f1, f2, cidx)
+    return out
+
+
+def _slot_call(prog, helpers, lhs, link_of):
+    """lhs = *h(..., x, ...) with h a link-address helper and x a prev/next position: the end field E of the side handled"""
+    l = strip_parens(lhs)
+    if l.get('kind') != 'UnaryOperator' or l.get('opcode') != '*':
+        return None
+    c = strip(children(l)[0])
+    if c.get('kind') != 'CallExpr':
+        return None
+    h = helpers.get(prog.callee_name(c))
+    if not h:
+        return None
+    args = children(c)[1:]
+    if h[0] >= len(args):
+        return None
+    k = link_of(access_path(args[h[0]]))
+    if k and h[1] == OPP[k] and (h[2], k) in PAIRS:
+        return h[2]
+    return None
+
+
 def rule_unlink(prog, rep, unit, rid='DL1'):
     rep.rule(rid, 'unlink protocol of the doubly linked chain: on every path through the unlinking code each side is tested, an end '
                   'pointer is re-assigned where the node is at that end and the neighbour is re-linked where it is not')
     prog.unit(unit)
     found = 0
+    slot_helpers = _link_addr_helpers(prog, unit)
+    rep.notes['link_address_helpers'] = sorted(slot_helpers)
     for f in sorted(prog.funcs_in(unit), key=lambda x: x.line or 0):
         if f.body is None:
             continue
@@ -106,6 +165,8 @@ def rule_unlink(prog, rep, unit, rid='DL1'):
                 lhs, rhs = ev[1], ev[2]
                 l = strip_parens(lhs)
                 if l.get('kind') == 'UnaryOperator' and l.get('opcode') == '*' and canon(children(l)[0]) in ppvar and is_linkish(rhs):
+                    unlinking = True
+                if slot_helpers and _slot_call(prog, slot_helpers, lhs, link_of) and is_linkish(rhs):
                     unlinking = True
                 fld, base = _field(lhs)
                 if fld in ('first', 'last') and is_linkish(rhs):
@@ -181,6 +242,10 @@ def rule_unlink(prog, rep, unit, rid='DL1'):
                 l = strip_parens(ev[1])
                 if l.get('kind') == 'UnaryOperator' and l.get('opcode') == '*' and canon(children(l)[0]) in ppvar:
                     s.add(('both', ppvar[canon(children(l)[0])]))
+                    continue
+                e_ = _slot_call(prog, slot_helpers, ev[1], link_of) if slot_helpers else None
+                if e_:
+                    s.add(('both', e_))
                     continue
                 fld, base = _field(ev[1])
                 if fld in ('first', 'last'):
@@ -407,6 +472,13 @@ def rule_link(prog, rep, unit, rid='DL2'):
                   'pointer set to it where it has no neighbour, the neighbour\'s opposite link set to it where it has one')
     prog.unit(unit)
     found = 0
+    slot_helpers = _link_addr_helpers(prog, unit)
+
+    def _suffix_link(path):
+        for k in OPP:
+            if path and (path.endswith('->' + k) or path.endswith('.' + k)):
+                return k
+        return None
     for f in sorted(prog.funcs_in(unit), key=lambda x: x.line or 0):
         if f.body is None:
             continue
@@ -421,6 +493,8 @@ def rule_link(prog, rep, unit, rid='DL2'):
                 fld, _b = _field(children(x)[0])
                 r = strip(children(x)[1])
                 if fld in ('first', 'last') and r.get('kind') == 'DeclRefExpr':
+                    onames.add((r.get('referencedDecl') or {}).get('name'))
+                if slot_helpers and r.get('kind') == 'DeclRefExpr' and _slot_call(prog, slot_helpers, children(x)[0], _suffix_link):
                     onames.add((r.get('referencedDecl') or {}).get('name'))
         if len(onames) != 1:
             continue
@@ -505,6 +579,23 @@ def rule_link(prog, rep, unit, rid='DL2'):
                 fld, base = _field(lhs)
                 r = strip(rhs)
                 rname = (r.get('referencedDecl') or {}).get('name') if r.get('kind') == 'DeclRefExpr' else None
+                E_ = _slot_call(prog, slot_helpers, lhs, _suffix_link) if slot_helpers else None
+                if E_:
+                    # *h(c, O->side) = v : the end pointer where O->side is NULL, the neighbour's opposite link where it is not
+                    call_ = strip(children(strip_parens(lhs))[0])
+                    h_ = slot_helpers[prog.callee_name(call_)]
+                    arg_ = canon(strip(children(call_)[1:][h_[0]]))
+                    ne, nv = resolve(s, arg_)
+                    e = '%s->%s' % (cont or canon(strip(children(call_)[1:][h_[3]])), E_)
+                    s = bump(s, e)
+                    s = {x for x in s if not (x[0] == 'end' and x[1] == E_)}
+                    if ne != 'NULL':
+                        s = bump(s, '%s->%s' % (ne, h_[1]))
+                    if rname == O:
+                        s.add(('end', E_))
+                        if ne != 'NULL':
+                            s.add(('lnk', h_[1], ne, nv))
+                    continue
                 if fld in ('first', 'last') and base is not None:
                     e = canon(strip_parens(lhs))
                     s = bump(s, e)
